@@ -44,12 +44,14 @@ META = {
                   "tok_strings": 370000, "shape_cases": 64000, "variants_checked": 120000,
                   "random_accepted": 6000, "random_rejected": 12000,
                   "cache_rechecks": 400, "cache_evicted_reparse": 400,
-                  "live_roundtrips": 500, "live_attached": 400, "reject_reasons_seen": 100},
+                  "live_roundtrips": 500, "live_attached": 400, "reject_reasons_seen": 100,
+                  "distinct_meaning_pairs": 70000},
         "thorough": {"evaluations": 40000000, "accepted": 1500000, "rejected": 36000000,
                      "tok_strings": 37000000, "shape_cases": 500000, "variants_checked": 1000000,
                      "random_accepted": 200000, "random_rejected": 400000,
                      "cache_rechecks": 8000, "cache_evicted_reparse": 8000,
-                     "live_roundtrips": 10000, "live_attached": 9000, "reject_reasons_seen": 100},
+                     "live_roundtrips": 10000, "live_attached": 9000, "reject_reasons_seen": 100,
+                     "distinct_meaning_pairs": 600000},
     },
     "exhaustive_parts": ("all token strings over {a,b,items,+,*,.,:,',',[,]} of length 1..6 (quick) / "
                          "1..8 (thorough): acceptance, exception class and denotation checked on every "
